@@ -147,7 +147,7 @@ func encCbor(out []byte, v *val, p *picker) []byte {
 		if v.k == kBytes {
 			major = 2
 		}
-		if p.pick(3) == 2 {
+		if p.pick(3) == 2 && !p.noIndefStr {
 			out = append(out, major<<5|31)
 			for _, c := range chunk(v.s, v.k == kStr, p) {
 				out = cbHead(out, major, uint64(len(c)), p)
